@@ -1,7 +1,11 @@
 #!/bin/bash
 # re-run every kept seeded change against the checks that are expected to catch it
+# usage: tools/seed_all.sh [shard nshards]   (shards can run side by side: every change has its own scratch tree)
 cd "$(dirname "$0")/.."
+shard=${1:-0}; nsh=${2:-1}; k=0
 for d in seeded/*/; do
+  k=$((k+1))
+  if [ $((k % nsh)) -ne "$shard" ]; then continue; fi
   n=$(basename $d)
   checks=$(python3 -c "
 import json
